@@ -2,25 +2,32 @@
 //
 // Real gno.land app (engine chainx): real ante handler, real signatures, real multistore.
 //
-// Part 1 (inputs): for each base tx (1 signer; 1 signer/2 msgs; 2 signers/2 msgs; 2 signers/3 msgs;
-// 2-of-3 multisig) in two account states (S0: fresh genesis, no pubkey stored, seq 0; S1: pubkeys stored,
-// seqs A=2,B=1,M=1) every mutation of a catalogue (each field of the signed doc, tx-side field edits after
-// signing, signature bit flips / truncations / high-S, pubkey-field games incl. squatting on first use,
-// session address, signature-list edits, multisignature edits) is delivered to the real app.
+// Part 1 (inputs): for each base tx (1 signer; 1 signer/2 msgs; 2 signers/2 msgs; 2 signers/3 msgs; 2-of-3 multisig;
+// multisig+plain; a SESSION key signing for its master; session (paying the fee, vm call) + plain co-signer; plain fee
+// payer + session co-signer) in two account states (S0: fresh genesis, no pubkey stored, seq 0; S1: pubkeys stored,
+// seqs A=2,B=1,M=1, session seqs A/SA=3,B/SB=1) every mutation of a catalogue (each field of the signed doc, tx-side field
+// edits after signing, signature bit flips / truncations / high-S, pubkey-field games incl. squatting on first use,
+// session-credential games: session address dropped/foreign/of another master, master key under a session address, session
+// key over the master's number/sequence, either credential swapped for the other VALID one; signature-list edits,
+// multisignature edits) is delivered to the real app.
 //
-// Part 2 (histories): all histories of <=3 (quick) / <=4 (thorough) state-changing steps over an alphabet of
-// PRE-SIGNED txs (fixed byte strings signed for explicit sequences: same tx twice, two txs with the same
-// sequence, future sequence, 2-signer txs with each signer stale, two different valid multisignatures of the
-// same doc, a tx whose msg fails after the ante accepted it), "next block" and (a few) "restart" steps; at
-// every visited state every alphabet entry is tried. Part 3: the same with CheckTx/DeliverTx mixes.
+// Part 2 (histories): depth-first over all histories of <3 (quick) / <4 (thorough) state-changing steps over an alphabet of
+// PRE-SIGNED txs (fixed byte strings signed for explicit sequences: same tx twice, two txs with the same sequence, future
+// sequence, 2-signer txs with each signer stale, two different valid multisignatures of the same doc, a tx whose msg fails
+// after the ante accepted it, session-signed sends / vm calls / failing msgs / mixed with a plain co-signer) and "next
+// block"; at every visited state EVERY alphabet entry is executed — after the real bank/vm handlers of the earlier steps ran
+// and wrote accounts and session records back. States are snapshotted by stacking a cache layer on the app's deliver/check
+// state; block boundaries and restarts are real (own chain). Part 3: the same with CheckTx/DeliverTx mixes; restart histories.
 //
-// Oracle = independent model {addr -> exists, accnum, seq, pubkey stored?, ugnot} + the true key of every
-// address: a tx is accepted by the ante  <=>  #sigs == #signers and for every signer: account exists, no session
-// address, the PubKey field is absent (and one is stored) or equals the key that hashes to the signer address,
-// and the signature verifies under that key over (chain id, accnum, CURRENT seq, fee, msgs, memo) of the
-// delivered tx; and the first signer can pay the fee. On accept: every signer's seq +1 exactly, pubkey stored,
-// fee moved to the collector, msgs applied all-or-nothing; ALL account records of the store must equal the
-// model and no other key may change. On ante rejection: the full dump of both stores is byte-identical.
+// Oracle = independent model {addr -> exists, accnum, seq, pubkey stored?, ugnot; (master, session) -> accnum, seq, spend
+// used} + the true key of every address: a tx is accepted by the ante  <=>  #sigs == #signers and for every signer: account
+// exists, its CREDENTIAL (the master record, or — signature carries a session address — that session record of that master,
+// which must exist) has a known key: the PubKey field is absent (and one is stored) or equals the true key, and the
+// signature verifies under that key over (chain id, credential's accnum, credential's CURRENT seq, fee, msgs, memo) of the
+// delivered tx; and the first signer can pay the fee (a fee-paying session: within its spend limit). On accept: every
+// credential's seq +1 exactly, pubkey stored, fee moved to the collector (and counted as session spend), msgs applied
+// all-or-nothing; ALL account and session records of the store must equal the model and no other key may change. On ante
+// rejection: the state (dirty layer of both stores) is unchanged.
 package main
 
 import (
@@ -37,6 +44,8 @@ import (
 	"time"
 
 	"github.com/gnolang/gno/gno.land/pkg/gnoland"
+	"github.com/gnolang/gno/gno.land/pkg/sdk/vm"
+	"github.com/gnolang/gno/gnovm/pkg/gnolang"
 	"github.com/gnolang/gno/tm2/pkg/amino"
 	abci "github.com/gnolang/gno/tm2/pkg/bft/abci/types"
 	"github.com/gnolang/gno/tm2/pkg/crypto"
@@ -61,21 +70,42 @@ var (
 	A, B, C, Z = chainx.NewKey("A"), chainx.NewKey("B"), chainx.NewKey("C"), chainx.NewKey("Z")
 	K          = []chainx.Key{chainx.NewKey("K1"), chainx.NewKey("K2"), chainx.NewKey("K3")}
 	U          = chainx.NewKey("U") // never funded: no account
+	// session keys (no account of their own): SA is a session of master A, SB of master B; both are created by
+	// genesis txs (no expiry, allow-paths {*}, lifetime spend limit sessLimit), so every chain starts with them
+	SA, SB = chainx.NewKey("SA"), chainx.NewKey("SB")
 	MPub       = multisig.NewPubKeyMultisigThreshold(2, []crypto.PubKey{K[0].Pub, K[1].Pub, K[2].Pub})
 	MAddr      = MPub.Address()
 	funded     = []chainx.Key{A, B, C, Z}
-	trueKey    = map[crypto.Address]crypto.PubKey{A.Addr: A.Pub, B.Addr: B.Pub, C.Addr: C.Pub, Z.Addr: Z.Pub, U.Addr: U.Pub, MAddr: MPub}
-	names      = map[crypto.Address]string{A.Addr: "A", B.Addr: "B", C.Addr: "C", Z.Addr: "Z", U.Addr: "U", MAddr: "M"}
+	trueKey    = map[crypto.Address]crypto.PubKey{A.Addr: A.Pub, B.Addr: B.Pub, C.Addr: C.Pub, Z.Addr: Z.Pub, U.Addr: U.Pub, MAddr: MPub, SA.Addr: SA.Pub, SB.Addr: SB.Pub}
+	names      = map[crypto.Address]string{A.Addr: "A", B.Addr: "B", C.Addr: "C", Z.Addr: "Z", U.Addr: "U", MAddr: "M", SA.Addr: "SA", SB.Addr: "SB", sinkAddr: "sink-realm"}
+	sinkAddr   = gnolang.DerivePkgCryptoAddr(sinkPath)
 	collector  = auth.DefaultParams().FeeCollector
 	edPriv     = ed25519.GenPrivKeyFromSecret([]byte("verif-ed"))
 )
 
-const fund = int64(1_000_000_000_000)
+const (
+	fund      = int64(1_000_000_000_000)
+	sessLimit = 2 * fund // lifetime spend limit of both sessions: above any balance, so that a session-signed send can fail in the MESSAGE
+	sinkPath  = "gno.land/r/verif/sink"
+	sinkSrc   = "package sink\n\nfunc Deposit(cur realm) {}\n"
+)
 
+// spec: besides the funded keys the genesis carries (unsigned, as genesis txs are) the creation of the two sessions and
+// the deployment of a realm whose only function does nothing (target of MsgCall with attached coins: the vm keeper's
+// coin-moving path). Genesis txs neither store a pubkey nor advance a sequence (the ante skips Phase 3 at height 0).
 func spec() chainx.Spec {
-	return chainx.Spec{Keys: funded, Fund: fund, Mutate: func(gs *gnoland.GnoGenesisState) {
-		gs.Balances = append(gs.Balances, gnoland.Balance{Address: MAddr, Amount: coins(fund)})
-	}}
+	gtx := func(m std.Msg) std.Tx {
+		return std.Tx{Msgs: []std.Msg{m}, Fee: std.NewFee(100_000_000, std.NewCoin("ugnot", 1_000_000)), Signatures: []std.Signature{{}}}
+	}
+	return chainx.Spec{Keys: funded, Fund: fund,
+		GenesisTxs: []std.Tx{
+			gtx(auth.MsgCreateSession{Creator: A.Addr, SessionKey: SA.Pub, AllowPaths: []string{"*"}, SpendLimit: coins(sessLimit)}),
+			gtx(auth.MsgCreateSession{Creator: B.Addr, SessionKey: SB.Pub, AllowPaths: []string{"*"}, SpendLimit: coins(sessLimit)}),
+			gtx(chainx.AddPkg(Z.Addr, sinkPath, map[string]string{"sink.gno": sinkSrc})),
+		},
+		Mutate: func(gs *gnoland.GnoGenesisState) {
+			gs.Balances = append(gs.Balances, gnoland.Balance{Address: MAddr, Amount: coins(fund)})
+		}}
 }
 
 func coins(n int64) std.Coins { return std.Coins{std.NewCoin("ugnot", n)} }
@@ -88,16 +118,31 @@ type mAcc struct {
 	Ugnot    int64
 }
 
+// mSess: a session account (stored under /a/<master>/s/<session>): it holds the CREDENTIAL (own account number, own
+// sequence, the session pubkey — stored at creation) with which the session key signs for its master, and the spend
+// bookkeeping (lifetime limit sessLimit; Used = fees + coins the session moved out of the master).
+type mSess struct {
+	Num, Seq uint64
+	Used     int64
+}
+
+type sid struct{ master, sess crypto.Address }
+
 type model struct {
 	acc     map[crypto.Address]*mAcc
+	sess    map[sid]*mSess
 	nextNum uint64
 }
 
 func (m *model) clone() *model {
-	n := &model{acc: map[crypto.Address]*mAcc{}, nextNum: m.nextNum}
+	n := &model{acc: map[crypto.Address]*mAcc{}, sess: map[sid]*mSess{}, nextNum: m.nextNum}
 	for a, v := range m.acc {
 		c := *v
 		n.acc[a] = &c
+	}
+	for a, v := range m.sess {
+		c := *v
+		n.sess[a] = &c
 	}
 	return n
 }
@@ -106,6 +151,9 @@ func (m *model) key() string {
 	var as []string
 	for a, v := range m.acc {
 		as = append(as, fmt.Sprintf("%s:%d/%d/%v/%d", nm(a), v.Num, v.Seq, v.HasPub, v.Ugnot))
+	}
+	for a, v := range m.sess {
+		as = append(as, fmt.Sprintf("%s/%s:%d/%d/%d", nm(a.master), nm(a.sess), v.Num, v.Seq, v.Used))
 	}
 	sort.Strings(as)
 	return fmt.Sprintf("%d|%s", m.nextNum, strings.Join(as, ","))
@@ -142,6 +190,8 @@ func signersOf(msgs []std.Msg) []crypto.Address {
 			for _, in := range m.Inputs {
 				ss = append(ss, in.Address)
 			}
+		case vm.MsgCall:
+			ss = []crypto.Address{m.Caller}
 		default:
 			panic("unexpected msg type")
 		}
@@ -202,40 +252,75 @@ func oracle(m *model, tx std.Tx, check bool) verdict {
 	if len(tx.Signatures) == 0 || len(tx.Signatures) != len(signers) {
 		return verdict{why: "signature count"}
 	}
+	// viaSess: the masters for which THIS tx is authorised by a session key (signature carries a session address)
+	viaSess := map[crypto.Address]sid{}
 	for i, s := range signers {
 		acc := m.acc[s]
 		if acc == nil {
 			return verdict{why: "unknown account " + nm(s)}
 		}
 		sig := tx.Signatures[i]
+		// the credential the signature is checked against: the master account, or a session account of that master
+		tk, stored, num, seq, who := trueKey[s], acc.HasPub, acc.Num, acc.Seq, nm(s)
 		if !sig.SessionAddr.IsZero() {
-			return verdict{why: "session address without session"}
+			id := sid{s, sig.SessionAddr}
+			ss := m.sess[id]
+			if ss == nil {
+				return verdict{why: "no session " + nm(sig.SessionAddr) + " of " + nm(s)}
+			}
+			tk, stored, num, seq, who = trueKey[sig.SessionAddr], true, ss.Num, ss.Seq, nm(s)+"/"+nm(sig.SessionAddr)
+			viaSess[s] = id
 		}
-		tk := trueKey[s]
 		if sig.PubKey != nil && !bytes.Equal(sig.PubKey.Bytes(), tk.Bytes()) {
-			return verdict{why: "pubkey field is not the key of " + nm(s)}
+			return verdict{why: "pubkey field is not the key of " + who}
 		}
-		if sig.PubKey == nil && !acc.HasPub {
-			return verdict{why: "no pubkey known for " + nm(s)}
+		if sig.PubKey == nil && !stored {
+			return verdict{why: "no pubkey known for " + who}
 		}
-		doc, err := std.GetSignaturePayload(std.SignDoc{ChainID: chainx.ChainID, AccountNumber: acc.Num, Sequence: acc.Seq, Fee: tx.Fee, Msgs: tx.Msgs, Memo: tx.Memo})
+		doc, err := std.GetSignaturePayload(std.SignDoc{ChainID: chainx.ChainID, AccountNumber: num, Sequence: seq, Fee: tx.Fee, Msgs: tx.Msgs, Memo: tx.Memo})
 		if err != nil {
 			panic(err)
 		}
 		if !verifySig(tk, doc, sig.Signature) {
-			return verdict{why: "signature of " + nm(s) + " does not verify over (chain,accnum,seq,fee,msgs,memo)"}
+			return verdict{why: "signature of " + who + " does not verify over (chain,accnum,seq,fee,msgs,memo)"}
 		}
 	}
 	fee := tx.Fee.GasFee
 	if fee.Denom != "ugnot" || m.acc[signers[0]].Ugnot < fee.Amount {
 		return verdict{why: "cannot pay fee"}
 	}
+	if id, ok := viaSess[signers[0]]; ok {
+		// a fee-paying session: fee + the coins its master's messages declare must fit the remaining spend limit
+		total := fee.Amount
+		for _, msg := range tx.Msgs {
+			switch msg := msg.(type) {
+			case bank.MsgSend:
+				if msg.FromAddress == signers[0] {
+					total += msg.Amount.AmountOf("ugnot")
+				}
+			case vm.MsgCall:
+				if msg.Caller == signers[0] {
+					total += msg.Send.AmountOf("ugnot")
+				}
+			}
+		}
+		if m.sess[id].Used+total > sessLimit {
+			return verdict{why: "declared outflow exceeds the session spend limit"}
+		}
+	}
 	// accepted by the ante
 	m.acc[signers[0]].Ugnot -= fee.Amount
 	if fee.Amount > 0 {
 		m.credit(collector, fee.Amount)
+		if id, ok := viaSess[signers[0]]; ok {
+			m.sess[id].Used += fee.Amount
+		}
 	}
 	for _, s := range signers {
+		if id, ok := viaSess[s]; ok {
+			m.sess[id].Seq++ // the session's own sequence; the master record is not touched
+			continue
+		}
 		m.acc[s].Seq++
 		m.acc[s].HasPub = true
 	}
@@ -244,16 +329,29 @@ func oracle(m *model, tx std.Tx, check bool) verdict {
 	}
 	trial := m.clone()
 	ok := true
+	move := func(from, to crypto.Address, amt int64) {
+		if id, via := viaSess[from]; via && amt > 0 {
+			if trial.sess[id].Used+amt > sessLimit {
+				ok = false
+				return
+			}
+			trial.sess[id].Used += amt
+		}
+		if trial.acc[from].Ugnot < amt {
+			ok = false
+			return
+		}
+		trial.acc[from].Ugnot -= amt
+		if amt > 0 {
+			trial.credit(to, amt)
+		}
+	}
 	for _, msg := range tx.Msgs {
 		switch msg := msg.(type) {
 		case bank.MsgSend:
-			amt := msg.Amount.AmountOf("ugnot")
-			if trial.acc[msg.FromAddress].Ugnot < amt {
-				ok = false
-			} else {
-				trial.acc[msg.FromAddress].Ugnot -= amt
-				trial.credit(msg.ToAddress, amt)
-			}
+			move(msg.FromAddress, msg.ToAddress, msg.Amount.AmountOf("ugnot"))
+		case vm.MsgCall: // only calls of sink.Deposit (does nothing): the attached coins go to the realm's address
+			move(msg.Caller, gnolang.DerivePkgCryptoAddr(msg.PkgPath), msg.Send.AmountOf("ugnot"))
 		case bank.MsgMultiSend:
 			for _, in := range msg.Inputs {
 				amt := in.Coins.AmountOf("ugnot")
@@ -421,28 +519,78 @@ func (s *snap) acct(key string) (string, bool) {
 	return "", false
 }
 
-// compareAccounts checks that the account records (and the account-number counter) of a dump equal the model.
+const sessInfix = "/s/"
+
+// splitAcctKey decodes a key under /a/: a master record (/a/<addr>) or a session record (/a/<master>/s/<session>).
+func splitAcctKey(k string) (master, sess crypto.Address, isSess, ok bool) {
+	rest := k[len(accPrefix):]
+	switch len(rest) {
+	case crypto.AddressSize:
+		copy(master[:], rest)
+		return master, sess, false, true
+	case 2*crypto.AddressSize + len(sessInfix):
+		if rest[crypto.AddressSize:crypto.AddressSize+len(sessInfix)] != sessInfix {
+			return master, sess, false, false
+		}
+		copy(master[:], rest)
+		copy(sess[:], rest[crypto.AddressSize+len(sessInfix):])
+		return master, sess, true, true
+	}
+	return master, sess, false, false
+}
+
+// compareAccounts checks that the account and session records (and the account-number counter) of a dump equal the model.
 func compareAccounts(m *model, d *snap) string {
-	seen := 0
+	seen, seenSess := 0, 0
 	for _, e := range d.accts {
 		k, v := e.k, e.v
 		if !strings.HasPrefix(k, accPrefix) {
 			continue
 		}
-		if len(k) != len(accPrefix)+crypto.AddressSize {
-			return "unexpected key under /a/ (session?): " + show(k)
+		addr, sessAddr, isSess, ok := splitAcctKey(k)
+		if !ok {
+			return "unexpected key under /a/: " + show(k)
 		}
-		var addr crypto.Address
-		copy(addr[:], k[len(accPrefix):])
 		var acc std.Account
 		if err := amino.Unmarshal([]byte(v), &acc); err != nil {
-			return "undecodable account " + nm(addr)
+			return "undecodable account " + show(k)
+		}
+		if isSess {
+			who := nm(addr) + "/" + nm(sessAddr)
+			ms := m.sess[sid{addr, sessAddr}]
+			if ms == nil {
+				return "session " + who + " exists in the store but not in the model"
+			}
+			seenSess++
+			da, isDA := acc.(std.DelegatedAccount)
+			if !isDA {
+				return "record under a session key is not a session account: " + who
+			}
+			if acc.GetAddress() != sessAddr || da.GetMasterAddress() != addr {
+				return "session stored under a foreign key: " + who
+			}
+			if acc.GetAccountNumber() != ms.Num || acc.GetSequence() != ms.Seq {
+				return fmt.Sprintf("session %s: store (num %d, seq %d) != model (num %d, seq %d)", who, acc.GetAccountNumber(), acc.GetSequence(), ms.Num, ms.Seq)
+			}
+			if acc.GetPubKey() == nil || !bytes.Equal(acc.GetPubKey().Bytes(), trueKey[sessAddr].Bytes()) {
+				return fmt.Sprintf("session %s: stored pubkey is not the session key", who)
+			}
+			if !da.GetSpendUsed().IsEqual(coinsOrEmpty(ms.Used)) {
+				return fmt.Sprintf("session %s: spend used %v != model %d ugnot", who, da.GetSpendUsed(), ms.Used)
+			}
+			if !da.GetSpendLimit().IsEqual(coins(sessLimit)) || da.GetSpendPeriod() != 0 || da.GetExpiresAt() != 0 || !acc.GetCoins().IsZero() {
+				return fmt.Sprintf("session %s: grant changed (limit %v, period %d, expiry %d, coins %v)", who, da.GetSpendLimit(), da.GetSpendPeriod(), da.GetExpiresAt(), acc.GetCoins())
+			}
+			continue
 		}
 		ma := m.acc[addr]
 		if ma == nil {
 			return "account " + nm(addr) + " exists in the store but not in the model"
 		}
 		seen++
+		if _, isDA := acc.(std.DelegatedAccount); isDA {
+			return "session account stored under a master key: " + nm(addr)
+		}
 		if acc.GetAddress() != addr {
 			return "account stored under a foreign key: " + nm(addr)
 		}
@@ -459,8 +607,8 @@ func compareAccounts(m *model, d *snap) string {
 			return fmt.Sprintf("account %s: coins %v != model %d ugnot", nm(addr), acc.GetCoins(), ma.Ugnot)
 		}
 	}
-	if seen != len(m.acc) {
-		return fmt.Sprintf("store has %d accounts, model %d", seen, len(m.acc))
+	if seen != len(m.acc) || seenSess != len(m.sess) {
+		return fmt.Sprintf("store has %d accounts + %d sessions, model %d + %d", seen, seenSess, len(m.acc), len(m.sess))
 	}
 	var n uint64
 	if bz := d.gan; bz != "" {
@@ -483,30 +631,45 @@ func coinsOrEmpty(n int64) std.Coins {
 
 // modelFromDump builds the initial model from a genesis dump (the starting point is given, not derived).
 func modelFromDump(d *snap) *model {
-	m := &model{acc: map[crypto.Address]*mAcc{}}
+	m := &model{acc: map[crypto.Address]*mAcc{}, sess: map[sid]*mSess{}}
 	for _, e := range d.accts {
 		k, v := e.k, e.v
-		if strings.HasPrefix(k, accPrefix) && len(k) == len(accPrefix)+crypto.AddressSize {
-			var acc std.Account
-			if err := amino.Unmarshal([]byte(v), &acc); err != nil {
-				r.HarnessError("genesis account undecodable")
-			}
-			if acc.GetSequence() != 0 || acc.GetPubKey() != nil {
-				r.HarnessError("genesis account with sequence/pubkey")
-			}
-			m.acc[acc.GetAddress()] = &mAcc{Num: acc.GetAccountNumber(), Ugnot: acc.GetCoins().AmountOf("ugnot")}
+		if !strings.HasPrefix(k, accPrefix) {
+			continue
 		}
+		addr, sessAddr, isSess, ok := splitAcctKey(k)
+		if !ok {
+			r.HarnessError("genesis: unexpected key under /a/: %s", show(k))
+		}
+		var acc std.Account
+		if err := amino.Unmarshal([]byte(v), &acc); err != nil {
+			r.HarnessError("genesis account undecodable")
+		}
+		if isSess {
+			if acc.GetSequence() != 0 || !acc.(std.DelegatedAccount).GetSpendUsed().IsZero() {
+				r.HarnessError("genesis session with sequence/spend")
+			}
+			m.sess[sid{addr, sessAddr}] = &mSess{Num: acc.GetAccountNumber()}
+			continue
+		}
+		if acc.GetSequence() != 0 || acc.GetPubKey() != nil {
+			r.HarnessError("genesis account with sequence/pubkey")
+		}
+		m.acc[acc.GetAddress()] = &mAcc{Num: acc.GetAccountNumber(), Ugnot: acc.GetCoins().AmountOf("ugnot")}
 	}
 	if bz := d.gan; bz != "" {
 		amino.MustUnmarshal([]byte(bz), &m.nextNum)
 	}
 	for _, k := range []crypto.Address{A.Addr, B.Addr, C.Addr, Z.Addr, MAddr} {
-		if m.acc[k] == nil || m.acc[k].Ugnot != fund {
+		if m.acc[k] == nil || m.acc[k].Ugnot < fund/2 {
 			r.HarnessError("genesis account %s missing", nm(k))
 		}
 	}
-	if m.acc[U.Addr] != nil {
-		r.HarnessError("U must not exist")
+	if m.acc[U.Addr] != nil || m.acc[SA.Addr] != nil || m.acc[SB.Addr] != nil {
+		r.HarnessError("U / the session keys must not have accounts")
+	}
+	if len(m.sess) != 2 || m.sess[sid{A.Addr, SA.Addr}] == nil || m.sess[sid{B.Addr, SB.Addr}] == nil {
+		r.HarnessError("genesis sessions A/SA and B/SB missing (%d sessions)", len(m.sess))
 	}
 	return m
 }
@@ -540,6 +703,7 @@ type hist struct {
 	dump  *snap  // deliver state
 	cdump *snap  // check state
 	dirty bool   // a violation was seen: do not keep using this chain
+	pushed int   // depth of push() snapshots currently open
 	// writes committed by earlier blocks of this chain, per store (key -> value; in del: deleted)
 	set [2]map[string]string
 	del [2]map[string]bool
@@ -554,6 +718,9 @@ const lastHeaderKey = "last_header" // written into the base store by BaseApp.Co
 func (h *hist) finish(label string) {
 	if h.dirty {
 		return
+	}
+	if h.pushed != 0 {
+		r.HarnessError("finish inside a snapshot")
 	}
 	bk, mk := h.c.Base.VerifStoreKeys()
 	for si, key := range []types.StoreKey{bk, mk} {
@@ -629,6 +796,9 @@ func (h *hist) commitLayer() {
 
 // endBlockCommit = chainx.EndBlockCommit, with the layers observed between EndBlock and Commit.
 func (h *hist) endBlockCommit() {
+	if h.pushed != 0 {
+		r.HarnessError("block boundary inside a snapshot")
+	}
 	c := h.c
 	c.App.EndBlock(abci.RequestEndBlock{Height: c.Height + 1})
 	h.dump, _ = h.snapDeliver(nil)
@@ -650,6 +820,26 @@ func (h *hist) snapDeliver(prev *snap) (*snap, bool) {
 func (h *hist) snapCheck(prev *snap) (*snap, bool) {
 	bk, mk := h.c.Base.VerifStoreKeys()
 	return takeSnap(h.c.Base.VerifCheckMultiStore(), bk, mk, prev)
+}
+
+// push snapshots the chain (DeliverTx state AND CheckTx state: a fresh cache layer is stacked on each, see hooks) and
+// both models; the returned function rolls everything back. Transactions delivered in between run through the
+// unmodified DeliverTx/CheckTx paths (whose own per-tx cache layer now flushes into the stacked layer), and are
+// observed through that layer's dirty entries exactly as in an un-pushed block. A violation seen inside the snapshot
+// is contained by the rollback. Block boundaries (Commit) cannot be rolled back: never inside a snapshot.
+func (h *hist) push() (pop func()) {
+	popD := h.c.Base.VerifPushDeliver()
+	popC := h.c.Base.VerifPushCheck()
+	m, cm, dump, cdump, dirty := h.m.clone(), h.cm.clone(), h.dump, h.cdump, h.dirty
+	h.dump, _ = h.snapDeliver(nil)
+	h.cdump = nil
+	h.pushed++
+	return func() {
+		popC()
+		popD()
+		h.m, h.cm, h.dump, h.cdump, h.dirty = m, cm, dump, cdump, dirty
+		h.pushed--
+	}
 }
 
 // newHist: genesis, one empty block (so that the mempool state no longer runs at genesis height, see NOTES),
@@ -770,6 +960,12 @@ func seqAdvanced(pre *model, d *snap) bool {
 			return true
 		}
 	}
+	for id, ms := range pre.sess {
+		var acc std.Account
+		if bz, ok := d.acct(accPrefix + string(id.master[:]) + sessInfix + string(id.sess[:])); ok && amino.Unmarshal([]byte(bz), &acc) == nil && acc.GetSequence() != ms.Seq {
+			return true
+		}
+	}
 	return false
 }
 
@@ -870,7 +1066,8 @@ func head(s []string, n int) []string {
 // ---- building (mis-)signed transactions -------------------------------------------------------------------
 
 type slot struct {
-	acct    crypto.Address // account whose (number, sequence) go into the signed doc
+	acct    crypto.Address // account whose (number, sequence) go into the signed doc ...
+	cred    *sid           // ... unless set: then those of this session record (zero if there is no such session)
 	key     *chainx.Key    // plain signing key (nil: the signer's true key; multisig: see multi)
 	multi   []int          // multisig: positions marked in the bit array
 	mkeys   []chainx.Key   // multisig: keys that sign for those positions (default K[pos])
@@ -897,14 +1094,61 @@ type recipe struct {
 	slots []slot
 }
 
-var stdFee = std.NewFee(10_000_000, std.NewCoin("ugnot", 1_000_000))
+var (
+	stdFee  = std.NewFee(10_000_000, std.NewCoin("ugnot", 1_000_000))
+	callFee = std.NewFee(60_000_000, std.NewCoin("ugnot", 1_000_000)) // txs carrying a vm call need more gas
+)
 
 func newRecipe(msgs ...std.Msg) *recipe {
 	rc := &recipe{msgs: msgs, fee: stdFee, memo: "memo"}
+	for _, m := range msgs {
+		if _, ok := m.(vm.MsgCall); ok {
+			rc.fee = callFee
+		}
+	}
 	for _, s := range signersOf(msgs) {
 		rc.slots = append(rc.slots, defaultSlot(s))
 	}
 	return rc
+}
+
+// sessionOf: the session key created at genesis for a master (nil: none).
+func sessionOf(master crypto.Address) *chainx.Key {
+	switch master {
+	case A.Addr:
+		return &SA
+	case B.Addr:
+		return &SB
+	}
+	return nil
+}
+
+// sessionSlot: a correct session-key signature for master (its session signs over the session's own number/sequence).
+func sessionSlot(master crypto.Address) slot {
+	k := sessionOf(master)
+	return slot{acct: master, cred: &sid{master, k.Addr}, key: k, pub: k.Pub, session: k.Addr, chainID: chainx.ChainID, seqAbs: -1, numAbs: -1}
+}
+
+// via makes the given signer positions sign with their session keys.
+func via(rc *recipe, idx ...int) *recipe {
+	for _, i := range idx {
+		rc.slots[i] = sessionSlot(rc.slots[i].acct)
+	}
+	return rc
+}
+
+// credNumSeq: the (account number, sequence) of the credential a slot signs over, per model m.
+func credNumSeq(m *model, sl slot) (num, seq uint64) {
+	if sl.cred != nil {
+		if ss := m.sess[*sl.cred]; ss != nil {
+			return ss.Num, ss.Seq
+		}
+		return 0, 0
+	}
+	if a := m.acc[sl.acct]; a != nil {
+		return a.Num, a.Seq
+	}
+	return 0, 0
 }
 
 func defaultSlot(s crypto.Address) slot {
@@ -944,10 +1188,7 @@ func keyByAddr(a crypto.Address) *chainx.Key {
 func (rc *recipe) build(m *model) std.Tx {
 	tx := std.Tx{Msgs: rc.msgs, Fee: rc.fee, Memo: rc.memo}
 	for _, sl := range rc.slots {
-		var num, seq uint64
-		if a := m.acc[sl.acct]; a != nil {
-			num, seq = a.Num, a.Seq
-		}
+		num, seq := credNumSeq(m, sl)
 		num, seq = uint64(int64(num)+sl.numD), uint64(int64(seq)+sl.seqD)
 		if sl.seqAbs >= 0 {
 			seq = uint64(sl.seqAbs)
@@ -1007,6 +1248,11 @@ func send(from, to crypto.Address, n int64) std.Msg {
 	return bank.MsgSend{FromAddress: from, ToAddress: to, Amount: coins(n)}
 }
 
+// call: MsgCall of sink.Deposit (a function that does nothing) with n ugnot attached: the vm keeper's coin-moving path.
+func call(from crypto.Address, n int64) std.Msg {
+	return chainx.Call(from, coins(n), sinkPath, "Deposit")
+}
+
 func multisend(n int64, to crypto.Address, from ...crypto.Address) std.Msg {
 	var in []bank.Input
 	for _, f := range from {
@@ -1054,33 +1300,39 @@ func catalogue() []mutation {
 		add(fmt.Sprintf("doc-seq%+d", d), true, func(rc *recipe, i int, m *model) bool { rc.slots[i].seqD = d; return true })
 	}
 	add("doc-seq=0", true, func(rc *recipe, i int, m *model) bool {
-		if m.acc[rc.slots[i].acct].Seq == 0 {
+		if _, seq := credNumSeq(m, rc.slots[i]); seq == 0 {
 			return false
 		}
 		rc.slots[i].seqAbs = 0
 		return true
 	})
 	add("doc-accnum-and-seq-of-other-account", true, func(rc *recipe, i int, m *model) bool {
-		other := Z.Addr
+		other := slot{acct: Z.Addr}
 		if len(rc.slots) > 1 {
-			other = rc.slots[1-i].acct
+			other = rc.slots[1-i]
 		}
-		rc.slots[i].acct = other
+		rc.slots[i].acct, rc.slots[i].cred = other.acct, other.cred // the credential the OTHER signer signs over
 		return true
 	})
 	add("doc-seq-of-other-account", true, func(rc *recipe, i int, m *model) bool {
-		if len(rc.slots) < 2 || m.acc[rc.slots[1-i].acct].Seq == m.acc[rc.slots[i].acct].Seq {
+		if len(rc.slots) < 2 {
 			return false
 		}
-		rc.slots[i].seqAbs = int64(m.acc[rc.slots[1-i].acct].Seq)
+		_, mine := credNumSeq(m, rc.slots[i])
+		_, theirs := credNumSeq(m, rc.slots[1-i])
+		if mine == theirs {
+			return false
+		}
+		rc.slots[i].seqAbs = int64(theirs)
 		return true
 	})
 	add("doc-accnum-of-other-account", true, func(rc *recipe, i int, m *model) bool {
-		other := Z.Addr
+		other := slot{acct: Z.Addr}
 		if len(rc.slots) > 1 {
-			other = rc.slots[1-i].acct
+			other = rc.slots[1-i]
 		}
-		rc.slots[i].numAbs = int64(m.acc[other].Num)
+		num, _ := credNumSeq(m, other)
+		rc.slots[i].numAbs = int64(num)
 		return true
 	})
 	for _, f := range []std.Fee{
@@ -1199,7 +1451,7 @@ func catalogue() []mutation {
 		return true
 	})
 	add("signed-by-Z-over-Z's-accnum/seq,pubkey-field=Z", true, func(rc *recipe, i int, m *model) bool {
-		rc.slots[i].key, rc.slots[i].multi, rc.slots[i].pub, rc.slots[i].acct = &Z, nil, Z.Pub, Z.Addr
+		rc.slots[i].key, rc.slots[i].multi, rc.slots[i].pub, rc.slots[i].acct, rc.slots[i].cred = &Z, nil, Z.Pub, Z.Addr, nil
 		return true
 	})
 	add("signed-by-Z,pubkey-field=true-key", true, func(rc *recipe, i int, m *model) bool {
@@ -1225,8 +1477,8 @@ func catalogue() []mutation {
 		rc.slots[i].multi, rc.slots[i].key = nil, nil
 		base := rc.slots[i]
 		rc.slots[i].post = func([]byte) []byte {
-			a := m.acc[base.acct]
-			sb, _ := std.GetSignaturePayload(std.SignDoc{ChainID: chainx.ChainID, AccountNumber: a.Num, Sequence: a.Seq, Fee: rc.fee, Msgs: rc.msgs, Memo: rc.memo})
+			num, seq := credNumSeq(m, base)
+			sb, _ := std.GetSignaturePayload(std.SignDoc{ChainID: chainx.ChainID, AccountNumber: num, Sequence: seq, Fee: rc.fee, Msgs: rc.msgs, Memo: rc.memo})
 			s, _ := edPriv.Sign(sb)
 			return s
 		}
@@ -1234,6 +1486,77 @@ func catalogue() []mutation {
 	})
 	add("session-addr=B(no such session)", true, func(rc *recipe, i int, m *model) bool { rc.slots[i].session = B.Addr; return true })
 	add("session-addr=own-address", true, func(rc *recipe, i int, m *model) bool { rc.slots[i].session = rc.slots[i].acct; return true })
+	// --- session credentials (masters A and B each have a session, SA resp. SB, created at genesis)
+	onSession := func(name string, f func(rc *recipe, sl *slot, m *model) bool) {
+		add(name, true, func(rc *recipe, i int, m *model) bool {
+			if rc.slots[i].session.IsZero() || rc.slots[i].cred == nil {
+				return false
+			}
+			return f(rc, &rc.slots[i], m)
+		})
+	}
+	add("plain-signer-uses-own-session-instead(valid)", true, func(rc *recipe, i int, m *model) bool {
+		if !rc.slots[i].session.IsZero() || sessionOf(rc.slots[i].acct) == nil {
+			return false
+		}
+		rc.slots[i] = sessionSlot(rc.slots[i].acct)
+		return true
+	})
+	onSession("session-signer-uses-master-key-instead(valid)", func(rc *recipe, sl *slot, m *model) bool {
+		*sl = defaultSlot(sl.acct)
+		return true
+	})
+	onSession("session-addr-dropped", func(rc *recipe, sl *slot, m *model) bool { sl.session = crypto.Address{}; return true })
+	onSession("session-addr-dropped,pubkey-field-nil", func(rc *recipe, sl *slot, m *model) bool {
+		sl.session, sl.pub = crypto.Address{}, nil
+		return true
+	})
+	onSession("session-addr-dropped,pubkey-field=master-key", func(rc *recipe, sl *slot, m *model) bool {
+		sl.session, sl.pub = crypto.Address{}, trueKey[sl.acct]
+		return true
+	})
+	onSession("session-addr-kept,signed-by-master-key,pubkey-field=master-key", func(rc *recipe, sl *slot, m *model) bool {
+		sl.key, sl.pub = keyByAddr(sl.acct), trueKey[sl.acct]
+		return true
+	})
+	onSession("session-addr-kept,signed-by-master-key,pubkey-field-nil", func(rc *recipe, sl *slot, m *model) bool {
+		sl.key, sl.pub = keyByAddr(sl.acct), nil
+		return true
+	})
+	onSession("session-addr-kept,signed-by-master-key-over-master-accnum/seq", func(rc *recipe, sl *slot, m *model) bool {
+		sl.key, sl.pub, sl.cred = keyByAddr(sl.acct), trueKey[sl.acct], nil
+		return true
+	})
+	onSession("session-key-signs-over-master-accnum/seq", func(rc *recipe, sl *slot, m *model) bool { sl.cred = nil; return true })
+	onSession("session-key-signs-over-master-seq", func(rc *recipe, sl *slot, m *model) bool {
+		if m.acc[sl.acct].Seq == m.sess[*sl.cred].Seq {
+			return false
+		}
+		sl.seqAbs = int64(m.acc[sl.acct].Seq)
+		return true
+	})
+	onSession("session-key-signs-over-master-accnum", func(rc *recipe, sl *slot, m *model) bool {
+		sl.numAbs = int64(m.acc[sl.acct].Num)
+		return true
+	})
+	onSession("session-of-another-master(own accnum/seq)", func(rc *recipe, sl *slot, m *model) bool {
+		other := B.Addr
+		if sl.acct == B.Addr {
+			other = A.Addr
+		}
+		k := sessionOf(other)
+		sl.key, sl.pub, sl.session, sl.cred = k, k.Pub, k.Addr, &sid{other, k.Addr}
+		return true
+	})
+	onSession("session-of-another-master-named,signed-by-own-session", func(rc *recipe, sl *slot, m *model) bool {
+		other := B.Addr
+		if sl.acct == B.Addr {
+			other = A.Addr
+		}
+		sl.session = sessionOf(other).Addr
+		return true
+	})
+	onSession("session-addr=master-address", func(rc *recipe, sl *slot, m *model) bool { sl.session = sl.acct; return true })
 	// --- signature list
 	add("sigs-swapped", false, func(rc *recipe, i int, m *model) bool {
 		if len(rc.slots) < 2 {
@@ -1304,6 +1627,12 @@ func bumpMsgs(msgs []std.Msg, d int64, to crypto.Address) []std.Msg {
 			m.ToAddress = to
 		}
 		out[0] = m
+	case vm.MsgCall:
+		m.Send = coins(m.Send.AmountOf("ugnot") + d)
+		if !to.IsZero() {
+			m.Args = []string{to.String()} // (a call has no recipient: its arguments are changed instead)
+		}
+		out[0] = m
 	case bank.MsgMultiSend:
 		ins := append([]bank.Input{}, m.Inputs...)
 		outs := append([]bank.Output{}, m.Outputs...)
@@ -1331,11 +1660,16 @@ var bases = []baseDef{
 	{"2signers-2msgs", func() *recipe { return newRecipe(send(A.Addr, C.Addr, 100), send(B.Addr, C.Addr, 50)) }},
 	{"multisig-2of3", func() *recipe { return newRecipe(send(MAddr, C.Addr, 100)) }},
 	{"multisig+plain", func() *recipe { return newRecipe(send(MAddr, C.Addr, 100), send(B.Addr, C.Addr, 50)) }},
+	// session signers: the session key signs (own account number, own sequence) for its master; real handlers run after
+	{"session-1signer", func() *recipe { return via(newRecipe(send(A.Addr, C.Addr, 100)), 0) }},
+	{"session(vm-call)+plain", func() *recipe { return via(newRecipe(call(A.Addr, 100), send(B.Addr, C.Addr, 50)), 0) }},
+	{"plain+session", func() *recipe { return via(newRecipe(send(B.Addr, C.Addr, 50), send(A.Addr, C.Addr, 100)), 1) }},
 }
 
-// warm brings a fresh chain into state S1 (pubkeys stored; seq A=2, B=1, M=1).
+// warm brings a fresh chain into state S1 (pubkeys stored; seq A=2, B=1, M=1; session seqs A/SA=3, B/SB=1).
 func warm(h *hist) bool {
-	for i, rc := range []*recipe{newRecipe(send(A.Addr, C.Addr, 1)), newRecipe(send(A.Addr, C.Addr, 1), send(B.Addr, C.Addr, 1)), newRecipe(send(MAddr, C.Addr, 1))} {
+	for i, rc := range []*recipe{newRecipe(send(A.Addr, C.Addr, 1)), newRecipe(send(A.Addr, C.Addr, 1), send(B.Addr, C.Addr, 1)), newRecipe(send(MAddr, C.Addr, 1)),
+		via(newRecipe(send(A.Addr, C.Addr, 1)), 0), via(newRecipe(send(A.Addr, C.Addr, 1)), 0), via(newRecipe(send(A.Addr, C.Addr, 1)), 0), via(newRecipe(call(B.Addr, 1)), 0)} {
 		changed := h.deliver(rc.build(h.m), fmt.Sprintf("warm-up-%d", i))
 		if h.dirty {
 			return false // a violation was reported by the warm-up tx itself
@@ -1348,10 +1682,35 @@ func warm(h *hist) bool {
 	return !h.dirty
 }
 
+// part 1 is a flat list of (base, mutation, signer slot) cases per account state, cut into contiguous chunks; each
+// chunk runs on ONE chain. S0 (fresh genesis: no pubkey stored, all sequences 0): every case runs inside a snapshot,
+// so each one meets the pristine state. S1 (warmed): the chain simply carries on — every tx is signed against the
+// model's current numbers/sequences, which thereby keep changing from case to case.
+type p1case struct {
+	base baseDef
+	mu   mutation
+	slot int
+}
+
 type p1task struct {
-	base  baseDef
 	state string
-	muts  []mutation
+	cases []p1case
+}
+
+func p1cases(cat []mutation) []p1case {
+	var out []p1case
+	for _, b := range bases {
+		for _, mu := range cat {
+			nslots := 1
+			if mu.perSlot {
+				nslots = len(b.mk().slots)
+			}
+			for i := 0; i < nslots; i++ {
+				out = append(out, p1case{b, mu, i})
+			}
+		}
+	}
+	return out
 }
 
 func (t p1task) run() {
@@ -1363,36 +1722,41 @@ func (t p1task) run() {
 	if !fresh() {
 		return
 	}
-	for _, mu := range t.muts {
-		nslots := 1
-		if mu.perSlot {
-			nslots = len(t.base.mk().slots)
+	one := func(tx std.Tx, label string) bool {
+		if t.state == "S0" {
+			pop := h.push()
+			h.deliver(tx, label)
+			pop()
+			return true
 		}
-		for i := 0; i < nslots; i++ {
-			rc := t.base.mk()
-			if !mu.apply(rc, i, h.m) {
-				continue
-			}
-			label := fmt.Sprintf("%s/%s/%s", t.base.name, t.state, mu.name)
-			if mu.perSlot {
-				label += fmt.Sprintf("@signer%d", i)
-			}
-			tx := rc.build(h.m)
-			r.Distinct(label)
-			if (h.deliver(tx, label) && t.state == "S0") || h.dirty {
-				// S0 means "no pubkey stored yet": an accepted tx ends that; S1 chains simply carry on (every tx is
-				// signed against the model's current numbers/sequences)
-				h.finish(label)
-				if !fresh() {
-					return
-				}
-			}
+		h.deliver(tx, label)
+		return !h.dirty || fresh() // after a violation the chain is not used any further
+	}
+	var seenBases []baseDef
+	for _, cs := range t.cases {
+		if len(seenBases) == 0 || seenBases[len(seenBases)-1].name != cs.base.name {
+			seenBases = append(seenBases, cs.base)
+		}
+		rc := cs.base.mk()
+		if !cs.mu.apply(rc, cs.slot, h.m) {
+			continue
+		}
+		label := fmt.Sprintf("%s/%s/%s", cs.base.name, t.state, cs.mu.name)
+		if cs.mu.perSlot {
+			label += fmt.Sprintf("@signer%d", cs.slot)
+		}
+		r.Distinct(label)
+		if !one(rc.build(h.m), label) {
+			return
 		}
 	}
-	// after all the rejected forgeries the honest tx must still go through, with exactly the model's effects
-	label := fmt.Sprintf("%s/%s/honest-after-forgeries", t.base.name, t.state)
-	h.deliver(t.base.mk().build(h.m), label)
-	h.finish(label)
+	// after all the rejected forgeries the honest txs must still go through, with exactly the model's effects
+	for _, b := range seenBases {
+		if !one(b.mk().build(h.m), fmt.Sprintf("%s/%s/honest-after-forgeries", b.name, t.state)) {
+			return
+		}
+	}
+	h.finish(fmt.Sprintf("part1/%s/chunk-starting-at:%s/%s", t.state, t.cases[0].base.name, t.cases[0].mu.name))
 }
 
 // ---- part 2/3: histories over pre-signed txs ------------------------------------------------------------------
@@ -1428,10 +1792,20 @@ func alphabet() []opDef {
 			return rc
 		}},
 		{name: "A:msg-fails@seq0", kind: "tx", mk: func() *recipe { return seqs(newRecipe(send(A.Addr, C.Addr, 900_000_000_000_000)), 0) }},
+		// session-signed (the sequence is the SESSION's): the messages move coins of the master through the real bank / vm
+		// handlers after the ante, which write accounts (and the session record) back
+		{name: "A/SA:x@s0", kind: "tx", mk: func() *recipe { return seqs(via(newRecipe(send(A.Addr, C.Addr, 100)), 0), 0) }},
+		{name: "A/SA:x@s1", kind: "tx", mk: func() *recipe { return seqs(via(newRecipe(send(A.Addr, C.Addr, 100)), 0), 1) }},
+		{name: "A/SA:vm-call@s0", kind: "tx", mk: func() *recipe { return seqs(via(newRecipe(call(A.Addr, 300)), 0), 0) }},
+		{name: "B+A/SA@seq0,s0", kind: "tx", mk: func() *recipe { return seqs(via(newRecipe(send(B.Addr, C.Addr, 50), send(A.Addr, C.Addr, 50)), 1), 0, 0) }},
+		{name: "A/SA:msg-fails@s0", kind: "tx", mk: func() *recipe { return seqs(via(newRecipe(send(A.Addr, C.Addr, fund+fund/2)), 0), 0) }},
 		{name: "next-block", kind: "block"},
 	}
 	if r.Thorough() {
 		ops = append(ops,
+			opDef{name: "A:vm-call@seq1", kind: "tx", mk: func() *recipe { return seqs(newRecipe(call(A.Addr, 300)), 1) }},
+			opDef{name: "A/SA+B/SB@s0,s0", kind: "tx", mk: func() *recipe { return seqs(via(newRecipe(send(A.Addr, C.Addr, 50), send(B.Addr, C.Addr, 50)), 0, 1), 0, 0) }},
+			opDef{name: "A/SA+B@s1,seq0", kind: "tx", mk: func() *recipe { return seqs(via(newRecipe(call(A.Addr, 50), send(B.Addr, C.Addr, 50)), 0), 1, 0) }},
 			opDef{name: "A:y@seq1", kind: "tx", mk: func() *recipe { return seqs(newRecipe(send(A.Addr, Z.Addr, 200)), 1) }},
 			opDef{name: "B:x@seq1", kind: "tx", mk: func() *recipe { return seqs(newRecipe(send(B.Addr, C.Addr, 100)), 1) }},
 			opDef{name: "AB@seq1,1", kind: "tx", mk: func() *recipe { return seqs(newRecipe(send(A.Addr, C.Addr, 50), send(B.Addr, C.Addr, 50)), 1, 1) }},
@@ -1448,13 +1822,22 @@ func alphabet() []opDef {
 // checkAlphabet: CheckTx / DeliverTx mixes over a smaller tx set.
 func checkAlphabet() []opDef {
 	txs := alphabet()
-	pick := []int{0, 2, 5}
+	names := []string{"A:x@seq0", "A:x@seq1", "AB@seq0,0", "A/SA:x@s0"}
 	if r.Thorough() {
-		pick = []int{0, 1, 2, 5, 6}
+		names = []string{"A:x@seq0", "A:y@seq0", "A:x@seq1", "AB@seq0,0", "AB@seq1,0", "A/SA:x@s0", "A/SA:x@s1", "B+A/SA@seq0,s0"}
 	}
 	var ops []opDef
-	for _, i := range pick {
-		ops = append(ops, txs[i])
+	var pick []int
+	for _, n := range names {
+		for i, t := range txs {
+			if t.name == n {
+				pick = append(pick, i)
+				ops = append(ops, txs[i])
+			}
+		}
+	}
+	if len(pick) != len(names) {
+		panic("checkAlphabet: unknown tx name")
 	}
 	for j := range pick {
 		ops = append(ops, opDef{name: "check(" + ops[j].name + ")", kind: "check", txIdx: j})
@@ -1515,101 +1898,108 @@ func (h *hist) apply(sa signedAlphabet, i int, label string) bool {
 	panic("bad op")
 }
 
+// A history task owns one chain: it replays path for real (the path is empty or ends with a block boundary / restart,
+// the steps that cannot be rolled back), then explores depth-first from there with snapshots: at every visited state
+// EVERY alphabet entry is executed (inside a snapshot), the state-changing txs are descended into; a state-changing
+// block boundary becomes a new task (its own chain).
 type histTask struct {
 	sa    signedAlphabet
 	path  []int
-	leaf  bool // at maximum depth: also execute the state-changing ops (each on its own replay)
 	part  string
-	depth int
+	depth int  // visit states reached by < depth state-changing steps
+	tryOnly bool // restart histories: no descent, only try every tx at the reached state
 }
 
-func (t histTask) pathName(extra int) string {
+func pathName(sa signedAlphabet, part string, path []int, extra int) string {
 	var s []string
-	for _, i := range t.path {
-		s = append(s, t.sa.ops[i].name)
+	for _, i := range path {
+		s = append(s, sa.ops[i].name)
 	}
 	if extra >= 0 {
-		s = append(s, t.sa.ops[extra].name)
+		s = append(s, sa.ops[extra].name)
 	}
-	return t.part + ":[" + strings.Join(s, " ; ") + "]"
+	return part + ":[" + strings.Join(s, " ; ") + "]"
 }
+
+func (t histTask) pathName(extra int) string { return pathName(t.sa, t.part, t.path, extra) }
 
 func (t histTask) replay() *hist {
 	h := newHist()
 	for k, i := range t.path {
-		var s []string
-		for _, j := range t.path[:k+1] {
-			s = append(s, t.sa.ops[j].name)
-		}
-		if !h.apply(t.sa, i, t.part+":["+strings.Join(s, " ; ")+"]") || h.dirty {
+		if !h.apply(t.sa, i, pathName(t.sa, t.part, t.path[:k], i)) || h.dirty {
 			return nil // a violation was reported on the way
 		}
 	}
 	return h
 }
 
-func (t histTask) run() {
+// leafExec: at the deepest visited states also execute the state-changing txs.
+var leafExec bool
+
+func (t histTask) run(spawn func(histTask)) {
 	h := t.replay()
 	if h == nil {
 		return
 	}
-	r.Distinct(t.pathName(-1))
+	if t.tryOnly {
+		r.Distinct(t.pathName(-1))
+		for i, op := range t.sa.ops {
+			if op.kind == "tx" {
+				pop := h.push()
+				h.apply(t.sa, i, t.pathName(i))
+				pop()
+			}
+		}
+	} else {
+		t.visit(h, t.path, spawn)
+	}
+	h.finish(t.pathName(-1))
+}
+
+func (t histTask) visit(h *hist, path []int, spawn func(histTask)) {
+	r.Distinct(pathName(t.sa, t.part, path, -1))
+	leaf := len(path) >= t.depth-1
 	var changing []int
 	for i := range t.sa.ops {
-		_, _, ch := modelStep(t.sa, h.m, h.cm, i)
-		if ch {
+		if _, _, ch := modelStep(t.sa, h.m, h.cm, i); ch {
 			changing = append(changing, i)
 			continue
 		}
-		// the model says: rejected, nothing changes — execute on this chain and keep going
-		r.Distinct(t.pathName(i))
-		if h.apply(t.sa, i, t.pathName(i)) || h.dirty {
-			if h = t.replay(); h == nil {
-				return
-			}
-		}
+		// the model says: rejected, nothing changes
+		r.Distinct(pathName(t.sa, t.part, path, i))
+		pop := h.push()
+		h.apply(t.sa, i, pathName(t.sa, t.part, path, i))
+		pop()
 	}
-	if !t.leaf {
-		h.finish(t.pathName(-1))
-		return // the state-changing ops are executed (and checked) by the child tasks' replays
-	}
-	for n, i := range changing {
-		if n > 0 {
-			if h = t.replay(); h == nil {
-				return
-			}
+	for _, i := range changing {
+		block := t.sa.ops[i].kind == "block"
+		if block && len(path) > 0 && t.sa.ops[path[len(path)-1]].kind == "block" {
+			continue // two block boundaries in a row add nothing
 		}
-		r.Distinct(t.pathName(i))
-		h.apply(t.sa, i, t.pathName(i))
-		h.finish(t.pathName(i))
-	}
-}
-
-// enumerate all model-reachable paths of state-changing ops up to depth.
-// leafExec: at the deepest visited states also execute the state-changing ops (one chain replay each).
-var leafExec bool
-
-func enumerate(sa signedAlphabet, genesis *model, depth int, part string) []histTask {
-	var tasks []histTask
-	var rec func(path []int, m, cm *model)
-	rec = func(path []int, m, cm *model) {
-		tasks = append(tasks, histTask{sa: sa, path: append([]int{}, path...), leaf: len(path) == depth-1 && leafExec, part: part, depth: depth})
-		if len(path) == depth-1 {
-			return
+		if leaf && !leafExec {
+			continue
 		}
-		for i := range sa.ops {
-			// two block boundaries in a row add nothing
-			if sa.ops[i].kind == "block" && len(path) > 0 && sa.ops[path[len(path)-1]].kind == "block" {
-				continue
+		next := append(append([]int{}, path...), i)
+		if block {
+			if !leaf { // (at a leaf the boundary would only be replayed: every non-leaf boundary already is)
+				spawn(histTask{sa: t.sa, path: next, part: t.part, depth: t.depth})
 			}
-			nm_, ncm, ch := modelStep(sa, m, cm, i)
-			if ch {
-				rec(append(path, i), nm_, ncm)
-			}
+			continue
 		}
+		if len(path) == 0 {
+			// fan out: each first step gets its own chain (parallelism); its replay executes and checks the step
+			spawn(histTask{sa: t.sa, path: next, part: t.part, depth: t.depth})
+			continue
+		}
+		if leaf {
+			r.Distinct(pathName(t.sa, t.part, path, i))
+		}
+		pop := h.push()
+		if h.apply(t.sa, i, pathName(t.sa, t.part, path, i)) && !h.dirty && !leaf {
+			t.visit(h, next, spawn)
+		}
+		pop()
 	}
-	rec(nil, genesis, genesis.clone())
-	return tasks
 }
 
 // restart histories: replay protection must survive a cold re-open of the app on the same DB.
@@ -1626,6 +2016,7 @@ func restartHistories(sa signedAlphabet) [][]int {
 	hs := [][]int{
 		{idx("AB@seq0,0"), R},
 		{idx("M{K1,K2}@seq0"), idx("next-block"), R},
+		{idx("A/SA:x@s0"), R}, // a session-signed spend, then a cold re-open: every pre-signed tx (incl. the same bytes) is tried
 	}
 	if r.Thorough() {
 		hs = append(hs, []int{idx("A:x@seq0"), R}, []int{idx("A:msg-fails@seq0"), idx("next-block"), R}, []int{idx("A:x@seq0"), idx("A:x@seq1"), R}, []int{R, idx("A:x@seq0")}, []int{idx("B:x@seq0"), R, idx("AB@seq0,1")},
@@ -1653,82 +2044,85 @@ func main() {
 		genesisFull[1] = readKVs(g.c.Base.VerifDeliverMultiStore().GetStore(mk), nil, nil)
 	}
 
+	var (
+		mu      sync.Mutex
+		pending []func(spawn func(histTask))
+		nHist   int
+	)
+	addHist := func(t histTask) {
+		mu.Lock()
+		nHist++
+		pending = append(pending, t.run)
+		mu.Unlock()
+	}
 	// part 1
 	cat := catalogue()
-	var tasks []func()
-	chunk := len(cat)
-	for _, b := range bases {
-		for _, st := range []string{"S0", "S1"} {
-			for lo := 0; lo < len(cat); lo += chunk {
-				hi := min(lo+chunk, len(cat))
-				t := p1task{base: b, state: st, muts: cat[lo:hi]}
-				tasks = append(tasks, t.run)
-			}
+	cases := p1cases(cat)
+	const p1chunks = 14
+	chunk := (len(cases) + p1chunks - 1) / p1chunks
+	nP1 := 0
+	for _, st := range []string{"S0", "S1"} {
+		for lo := 0; lo < len(cases); lo += chunk {
+			t := p1task{state: st, cases: cases[lo:min(lo+chunk, len(cases))]}
+			nP1++
+			pending = append(pending, func(func(histTask)) { t.run() })
 		}
 	}
-	// part 2
-	// quick: every state reachable by <=2 state-changing steps is visited and all alphabet entries are tried there;
-	// the accepted 3rd steps are not executed (their rejection side is). thorough: <=4 steps, all executed.
+	// part 2: every state reachable by < depth state-changing steps is visited and ALL alphabet entries are executed there
+	// (quick: depth 3, i.e. histories of <= 3 executed steps; thorough: depth 4)
 	depth := 3
+	leafExec = true
 	if r.Thorough() {
-		depth, leafExec = 4, true
+		depth = 4
 	}
 	sa := presign(alphabet(), genesis)
-	ht := enumerate(sa, genesis, depth, "deliver")
-	for _, t := range ht {
-		tasks = append(tasks, t.run)
-	}
+	addHist(histTask{sa: sa, part: "deliver", depth: depth})
 	// part 3
 	csa := presign(checkAlphabet(), genesis)
-	ct := enumerate(csa, genesis, depth, "check+deliver")
-	for _, t := range ct {
-		tasks = append(tasks, t.run)
-	}
-	// restart histories (each: path, then every alphabet entry is tried at the resulting state)
+	addHist(histTask{sa: csa, part: "check+deliver", depth: depth})
+	// restart histories (each: path, then every tx of the alphabet is tried at the resulting state)
 	rsa := signedAlphabet{ops: append(append([]opDef{}, sa.ops...), opDef{name: "restart", kind: "restart"}), txs: append(append([]std.Tx{}, sa.txs...), std.Tx{})}
 	nRestart := 0
 	for _, p := range restartHistories(rsa) {
-		t := histTask{sa: rsa, path: p, leaf: false, part: "restart"}
 		nRestart++
-		tasks = append(tasks, func() {
-			h := t.replay()
-			if h == nil {
-				return
-			}
-			r.Distinct(t.pathName(-1))
-			for i := range sa.ops { // all txs (not the restart op itself)
-				if sa.ops[i].kind != "tx" {
-					continue
-				}
-				if h.apply(t.sa, i, t.pathName(i)) || h.dirty {
-					h.finish(t.pathName(i))
-					if h = t.replay(); h == nil {
-						return
-					}
-				}
-			}
-			h.finish(t.pathName(-1))
-		})
+		addHist(histTask{sa: rsa, path: p, part: "restart", tryOnly: true})
 	}
-	// longest tasks first is not needed; interleave for balance
 	tFirst := time.Since(tStart)
-	r.ParFor(len(tasks), func(i int) { tasks[i]() })
+	// rounds: tasks spawned by a round (histories continuing after a block boundary, each on its own chain) form the next
+	rounds, nTasks := 0, 0
+	for len(pending) > 0 && !r.Capped() {
+		cur := pending
+		pending = nil
+		var spawned []histTask
+		r.ParFor(len(cur), func(i int) {
+			cur[i](func(t histTask) { mu.Lock(); spawned = append(spawned, t); mu.Unlock() })
+		})
+		nTasks += len(cur)
+		rounds++
+		sort.Slice(spawned, func(i, j int) bool { return spawned[i].part+fmt.Sprint(spawned[i].path) < spawned[j].part+fmt.Sprint(spawned[j].path) })
+		for _, t := range spawned {
+			addHist(t)
+		}
+	}
 	pprof.StopCPUProfile()
-	fmt.Printf("first chain %.1fs, %d tasks %.1fs\n", tFirst.Seconds(), len(tasks), time.Since(tStart).Seconds()-tFirst.Seconds())
+	fmt.Printf("first chain %.1fs, %d tasks in %d rounds %.1fs\n", tFirst.Seconds(), nTasks, rounds, time.Since(tStart).Seconds()-tFirst.Seconds())
 
 	r.Sample(map[string]any{"part": 1, "case": "2signers-2msgs/S1/doc-seq+1@signer1", "meaning": "B signs over its sequence+1 while A's signature is valid: fee deduction and A's sequence increment made before B's check must be discarded"})
 	r.Sample(map[string]any{"part": 1, "case": "1signer/S0/signed-by-Z,pubkey-field=Z(squat)", "meaning": "first use of account A: an attacker supplies its own pubkey + valid signature; must be rejected and A's pubkey slot stay empty"})
+	r.Sample(map[string]any{"part": 1, "case": "session-1signer/S1/session-key-signs-over-master-accnum/seq@signer0", "meaning": "the session key must sign the SESSION record's number/sequence, the master's do not count"})
 	r.Sample(map[string]any{"part": 2, "case": "deliver:[A:x@seq0 ; next-block ; A:x@seq0]", "meaning": "byte-identical replay in the next block"})
-	r.Sample(map[string]any{"part": 2, "case": "deliver:[M{K1,K2}@seq0 ; M{K2,K3}@seq0]", "meaning": "two different valid multisignatures over the same doc: only the first may take effect"})
+	r.Sample(map[string]any{"part": 2, "case": "deliver:[A/SA:x@s0 ; next-block ; A/SA:x@s0]", "meaning": "byte-identical replay of a session-signed spend after its messages ran through the real bank handler (which writes the session record back)"})
 	r.Sample(map[string]any{"part": 3, "case": "check+deliver:[check(A:x@seq0) ; A:x@seq0 ; check(A:x@seq0)]", "meaning": "CheckTx state is separate from DeliverTx state; after the block the mempool re-check must reject"})
 	r.Assumptions = []string{
 		"signature primitive: the repo's PubKey.VerifyBytes for single keys (ECDSA itself is not re-implemented); multisignature rules (bit array size, >=K marked, one valid sub-signature per marked key) are re-implemented by the oracle",
 		"multisignatures carrying MORE sub-signatures than marked bits are not enumerated (whether such an encoding is 'a valid signature' is not decided by the property)",
-		"messages are bank sends in ugnot (MsgMultiSend is not amino-registered, so it cannot travel in a tx) between existing accounts, so that the model predicts the post-state exactly; session-key signatures are C16's subject (here: only 'session address without session')",
+		"messages are bank sends in ugnot (MsgMultiSend is not amino-registered, so it cannot travel in a tx) between existing accounts and vm calls of a function that does nothing with ugnot attached, so that the model predicts the post-state exactly",
+		"sessions: two sessions created at genesis (no expiry, allow-paths {*}, lifetime spend limit above every balance); expiry, revocation, allow-lists and spend periods are C16's subject",
+		"states are snapshotted/rolled back by stacking a cache layer on the app's deliver and check states (hooks: VerifPushDeliver/VerifPushCheck); block boundaries and restarts are real and run on their own chains",
 		"in-memory caches are observed through later txs on the same chain (each chain carries many cases) — not inspected directly",
 	}
-	r.Finish(fmt.Sprintf("part1: %d bases x {S0,S1} x %d-entry mutation catalogue (per signer slot); part2: every model-reachable history of <=%d state-changing steps over %d pre-signed txs + next-block, with every alphabet entry tried at every visited state; part3: same over %d CheckTx/DeliverTx ops; %d restart histories; distinct = distinct (case|history) labels",
+	r.Finish(fmt.Sprintf("part1: %d bases x {S0,S1} x %d-entry mutation catalogue (per signer slot); part2: every model-reachable history of <%d state-changing steps over %d pre-signed txs + next-block, with every alphabet entry executed at every visited state; part3: same over %d CheckTx/DeliverTx ops; %d restart histories; distinct = distinct (case|history) labels",
 		len(bases), len(cat), depth, len(sa.ops)-1, len(csa.ops), nRestart),
 		true, map[string]any{"states": nStates.Load(), "transitions": nTrans.Load(), "traces_validated_against_impl": nTrans.Load(), "chains_built": nChains.Load(), "full_store_reads": nFull.Load(), "store_keys_base_main": []int{len(genesisFull[0]), len(genesisFull[1])},
-			"depth": depth, "deepest_accepted_steps_executed": leafExec, "history_tasks": len(ht) + len(ct), "mutation_catalogue": len(cat)})
+			"depth": depth, "deepest_accepted_steps_executed": leafExec, "history_tasks": nHist, "part1_tasks": nP1, "part1_cases": 2 * len(cases), "mutation_catalogue": len(cat)})
 }
